@@ -8,9 +8,11 @@ ID = "C15"
 LEVEL = "proof"
 MODEL_TARGETS = ["theories/Analysis.vo"]
 TRANSLATORS = ["semiring", "rules"]
-LEVEL_TEXT = ("Theorems in coq/props/C15.v about the result assembly of the Coq model of Analysis.func (which fields are present in which case, the choice "
-              "object as the exact complement of the infinity delta lists, equality of the two modes on non-infinite functions); the model is tied to the "
-              "code by the end-to-end correspondence, and every clause is re-checked directly on every real result.")
+LEVEL_TEXT = ("Machine-checked theorems (coq/props/C15.v) about the result assembly of the Coq model of Analysis.func: which fields are present in which case, "
+              "equality of the two modes on non-infinite functions, the choice object accepts exactly the derivable vectors (where the relation's matrix is the "
+              "derived, infinity-free one), inf_flows names only entries that can be infinite; the clause 'exactly the vectors at which the relation has no "
+              "infinity' is REFUTED with a vm_compute witness (open finding). Model tied to the code by the end-to-end correspondence; every clause is "
+              "re-checked directly on every real result.")
 LEVEL_NOTE = "Trusted: Coq kernel, translators, reader, generators. One clause has an open finding (see known_findings.json): choices may be stricter than the relation's visible infinities."
 TECHNIQUE = "Coq proof over an executable model + differential correspondence + direct clause check on every real result"
 EXPLANATION = "see LEVEL_TEXT"
